@@ -303,6 +303,24 @@ def run(chk):
          'inside string literals) are rewritten before parsing' % [
              norm(c.args[0], 40) for c in apps if c.args], fi=rc)
 
+  sv = FnView(repo, 'parse.Strip')
+  tests = [n for n in sv.cfg.stmt_nodes() if isinstance(sv.cfg.stmt[n], (ast.If, ast.While)) and
+           "== '('" in norm(sv.cfg.stmt[n].test)]
+  strips = [n for n, c in sv.all_calls() if call_tail(c) == 'StripSpaces']
+  peel = [n for n in sv.cfg.stmt_nodes() if isinstance(sv.cfg.stmt[n], ast.Assign) and
+          isinstance(sv.cfg.stmt[n].value, ast.Subscript) and norm(sv.cfg.stmt[n].value.slice) == '1:-1']
+  if not tests or not peel:
+    raise AnalysisError('Strip: parenthesis test / peeling not recognised')
+  ok = all(sv.cfg.must_pass_before(t, strips) for t in tests)
+  for x in peel:
+    r = sv.cfg.reachable(x, avoid=strips)
+    if any(t in r for t in tests):
+      ok = False
+  chk.ob('C15-R2', ok, None, 'Strip removes layout before every test for an outer parenthesis pair',
+         'after an outer pair is removed the next test runs without stripping '
+         'spaces first: `( (e) )` keeps its inner parentheses, so redundant '
+         'parentheses with layout between them change the parse', fi=sv.fi)
+
   chk.rule('C15-R3', 'comment / string states of the scanner: comments are '
            'skipped (continue) without being yielded, string states switch '
            'off bracket tracking', min_instances=4)
@@ -320,9 +338,20 @@ def run(chk):
   states = set()
   for n in t.cfg.stmt_nodes():
     st = t.cfg.stmt[n]
-    if isinstance(st, ast.If) and isinstance(st.test, ast.Compare) and \
-        norm(st.test.left) == 'State()' and const_str(st.test.comparators[0]) is not None:
-      sym = const_str(st.test.comparators[0])
+    if not (isinstance(st, ast.If) and isinstance(st.test, ast.Compare) and
+            norm(st.test.left) == 'State()' and len(st.test.ops) == 1):
+      continue
+    cmp0 = st.test.comparators[0]
+    if isinstance(st.test.ops[0], ast.Eq) and const_str(cmp0) is not None:
+      syms = [const_str(cmp0)]
+    elif isinstance(st.test.ops[0], ast.In) and isinstance(cmp0, (ast.Tuple, ast.List, ast.Set)) \
+        and all(const_str(e) is not None for e in cmp0.elts):
+      syms = [const_str(e) for e in cmp0.elts]      # merged states
+    elif isinstance(st.test.ops[0], ast.In) and const_str(cmp0) is not None:
+      syms = list(const_str(cmp0))                  # State() in '"\''
+    else:
+      continue
+    for sym in syms:
       states.add(sym)
       offs = [x for x in ast.walk(ast.Module(body=st.body, type_ignores=[]))
               if isinstance(x, ast.Assign) and dotted(x.targets[0]) == 'track_parenthesis'
